@@ -11,6 +11,8 @@ SIZES = {
     "dense": (48, 480),
     "bounds": (640, 8000),
     "float": (320, 4000),
+    "centi": (480, 6000),
+    "sibling": (480, 6000),
     "relayout": (480, 6000),
     "budget": (320, 4000),
     "direct": (480, 6000),
